@@ -101,6 +101,7 @@ def static_scan():
             continue
         txt = open(p).read()
         txt = re.sub(r"\(\*.*?\*\)", " ", txt, flags=re.S)
+        txt = re.sub(r'"(?:[^"]|"")*"', '""', txt)      # string literals (names taken from the Go source) are data
         for m in FORBIDDEN.finditer(txt):
             bad.append("%s: %s" % (rel, m.group(0)))
         # Variable/Hypothesis outside a section
@@ -193,6 +194,7 @@ def regenerate_lockorder():
     for f in ("main.go",):
         h.update(open(os.path.join(src, f), "rb").read())
     h.update(open(os.path.join(ROOT, "gen", "lockorder2coq.py"), "rb").read())
+    h.update(open(os.path.join(COQ, "theories", "Cache", "LockOrder.v"), "rb").read())
     stamp = os.path.join(BUILD, "lockorder.sha")
     if os.path.exists(target) and os.path.exists(stamp) and open(stamp).read() == h.hexdigest():
         return []
@@ -202,7 +204,11 @@ def regenerate_lockorder():
         if rc != 0:
             write_if_changed(target, LOCKORDER_FALLBACK)
             return ["lockorder does not build: " + out[-400:]]
-    rc, out = sh([exe, REPO] + LOCKORDER_FILES, cwd=REPO, env=goenv(), timeout=300)
+    # the accesses that are emitted are those to the fields the discipline table of Cache/LockOrder.v guards (its
+    # non-vacuity lemma requires every one of them to occur)
+    table = re.search(r"Definition guards .*?:=\s*\[(.*?)\]\.", open(os.path.join(COQ, "theories", "Cache", "LockOrder.v")).read(), re.S)
+    fields = re.findall(r'\(\s*"([^"]+)"\s*,', table.group(1)) if table else []
+    rc, out = sh([exe, "-fields", ",".join(fields), REPO] + LOCKORDER_FILES, cwd=REPO, env=goenv(), timeout=300)
     facts = os.path.join(BUILD, "lockorder.facts")
     open(facts, "w").write(out)
     if rc != 0:
